@@ -15,6 +15,8 @@ LASTD = {}     # abs discrete source name -> last object
 CHECKS = []    # failures found at evaluation time
 NCHECK = [0]
 CUR = {}       # current case bookkeeping
+SNAP = {}      # abs input -> source value at the most recent transfer into it
+SNAPD = {}     # sink path -> source object at the most recent transfer into it
 
 
 def py_item(it):
@@ -71,6 +73,14 @@ def close(got, exp, inexact):
     return abs(g - exp) <= F(1, 10**12) * max(1, abs(exp))
 
 
+def ref_value(inp):
+    """what the input must hold now: the source's current output; under a Jacobi solver (all transfers
+    at the start of the sweep) the source's output at the most recent transfer into this input"""
+    if CUR.get('solver') == 'jac' and inp['abs'] in SNAP:
+        return SNAP[inp['abs']]
+    return LAST[inp['src_abs']]
+
+
 def check_input(where, inp, got, srcval):
     NCHECK[0] += 1
     exp, inexact = expected(srcval, inp)
@@ -83,7 +93,18 @@ def check_input(where, inp, got, srcval):
             [float(e) for e in exp]))
 
 
-class Src(om.ExplicitComponent):
+class Tracked(om.ExplicitComponent):
+    """apply_nonlinear evaluates compute() and then puts the old outputs back: the bookkeeping of the
+    last computed continuous outputs must follow (discrete outputs are not restored by the framework)"""
+
+    def _apply_nonlinear(self):
+        pre = self.pathname + '.'
+        saved = {k: np.array(v, copy=True) for k, v in LAST.items() if k.startswith(pre)}
+        super()._apply_nonlinear()
+        LAST.update(saved)
+
+
+class Src(Tracked):
     def initialize(self):
         self.options.declare('spec', types=dict)
 
@@ -97,9 +118,18 @@ class Src(om.ExplicitComponent):
                     kw[key] = float(F(*spec['s']))
                 else:
                     kw[key] = np.array([float(F(*v)) for v in spec['a']]).reshape(s['shape'])
+        shape = None
         self.add_input('fb', val=0.0)
-        self.base = np.array(s['base'], dtype=float).reshape(s['shape'])
-        self.gain = np.array(s['gain'], dtype=float).reshape(s['shape'])
+        if CUR.get('round') == 0 and s.get('shape0'):
+            # first round of a 'resize' case: another source shape (no solver scaling)
+            shape = s['shape0']
+            kw = {}
+            self.base = np.array(s['base0'], dtype=float).reshape(shape)
+            self.gain = np.zeros(shape)
+        else:
+            shape = s['shape']
+            self.base = np.array(s['base'], dtype=float).reshape(shape)
+            self.gain = np.array(s['gain'], dtype=float).reshape(shape)
         self.add_output('y', val=self.base.copy(), units=s['units'], **kw)
         LAST[self.pathname + '.y'] = self.base.copy()
         if s['disc']:
@@ -111,7 +141,8 @@ class Src(om.ExplicitComponent):
         s = self.options['spec']
         fbi = CUR['fb']
         if fbi is not None:
-            check_input('before compute of %s' % self.pathname, fbi, inputs['fb'], LAST[fbi['src_abs']])
+            check_input('before compute of %s' % self.pathname, dict(fbi, abs=self.pathname + '.fb'), inputs['fb'],
+                        ref_value(dict(fbi, abs=self.pathname + '.fb')))
         outputs['y'] = self.base + self.gain * inputs['fb'][0]
         LAST[self.pathname + '.y'] = np.array(outputs['y'], copy=True)
         if s['disc']:
@@ -120,7 +151,7 @@ class Src(om.ExplicitComponent):
             LASTD[self.pathname + '.dout'] = obj
 
 
-class Sink(om.ExplicitComponent):
+class Sink(Tracked):
     def initialize(self):
         self.options.declare('spec', types=dict)
 
@@ -135,10 +166,12 @@ class Sink(om.ExplicitComponent):
     def compute(self, inputs, outputs, discrete_inputs=None, discrete_outputs=None):
         s = self.options['spec']
         for inp in s['inputs']:
-            check_input('before compute of %s' % self.pathname, inp, inputs[inp['name']], LAST[inp['src_abs']])
+            check_input('before compute of %s' % self.pathname, inp, inputs[inp['name']], ref_value(inp))
         if s['disc_from'] is not None:
             NCHECK[0] += 1
             want = LASTD['%s.dout' % s['disc_from']]
+            if CUR.get('solver') == 'jac' and self.pathname in SNAPD:
+                want = SNAPD[self.pathname]
             if discrete_inputs['d'] is not want and len(CHECKS) < 3:
                 CHECKS.append('before compute of %s: discrete input d is %r, source object is %r' % (
                     self.pathname, discrete_inputs['d'], want))
@@ -246,6 +279,9 @@ def build(case):
     if case['solver'] == 'nlbgs':
         root.nonlinear_solver = om.NonlinearBlockGS(maxiter=3, iprint=-1, err_on_non_converge=False,
                                                     atol=1e-300, rtol=1e-300)
+    elif case['solver'] == 'jac':
+        root.nonlinear_solver = om.NonlinearBlockJac(maxiter=4, iprint=-1, err_on_non_converge=False,
+                                                     atol=1e-300, rtol=1e-300)
     return p, inputs
 
 
@@ -268,29 +304,69 @@ def classify_reject(case):
     return 'setup-rejected'
 
 
+def install(p, case, inputs):
+    """record, at every transfer of the root group, what each transferred input must now hold"""
+    root = p.model
+    orig = root._transfer
+    fbs = []
+    if case['sinks']:
+        z = sink_path(case['sinks'][0]) + '.z'
+        fbs = [{'abs': s['name'] + '.fb', 'src_abs': z} for s in case['sources']]
+    discs = [(sink_path(t), t['disc_from'] + '.dout') for t in case['sinks'] if t['disc_from'] is not None]
+
+    def wrapped(vec_name, mode, sub=None):
+        orig(vec_name, mode, sub)
+        if vec_name == 'nonlinear' and mode == 'fwd':
+            for inp in list(inputs) + fbs:
+                if sub is None or inp['abs'].split('.')[0] == sub:
+                    SNAP[inp['abs']] = np.array(LAST[inp['src_abs']], copy=True)
+            for path, src in discs:
+                if sub is None or path.split('.')[0] == sub:
+                    SNAPD[path] = LASTD[src]
+    root._transfer = wrapped
+    if case['sinks']:
+        zname = sink_path(case['sinks'][0]) + '.z'
+        sink0 = p.model._get_subsystem(sink_path(case['sinks'][0]))
+        orig_c = sink0.compute
+
+        def wrapped_c(inputs_, outputs_, *a, **k):
+            orig_c(inputs_, outputs_, *a, **k)
+            LAST[zname] = np.array(outputs_['z'], copy=True)
+        sink0.compute = wrapped_c
+
+
 def handle(case):
     kind = case['kind']
-    try:
-        p, inputs = build(case)
-        p.setup()
+    SNAP.clear()
+    SNAPD.clear()
+    CUR['solver'] = case['solver']
+    CUR['round'] = 0 if case.get('resize') else 1
+
+    def set_autos(p):
         for a in case['autos']:
             if not a['defaults']:
                 p.set_val(a['name'], np.array(a['vals'], dtype=float).reshape(a['shape']), units=a['units'])
+    try:
+        p, inputs = build(case)
+        p.setup()
+        set_autos(p)
         p.final_setup()
     except Exception as e:   # every generated chain is valid: a refusal is a failure of the property
         return {'res': {'e': 1}, 'ok': False, 'sig': classify_reject(case), 'kind': kind,
                 'msg': 'setup/final_setup raised %s: %s' % (type(e).__name__, str(e)[:600])}
-    # track the z of the feedback sink
-    if case['sinks']:
-        zname = sink_path(case['sinks'][0]) + '.z'
-        sink0 = p.model._get_subsystem(sink_path(case['sinks'][0]))
-        orig = sink0.compute
-
-        def wrapped(inputs_, outputs_, *a, **k):
-            orig(inputs_, outputs_, *a, **k)
-            LAST[zname] = np.array(outputs_['z'], copy=True)
-        sink0.compute = wrapped
+    install(p, case, inputs)
     try:
+        if case.get('resize'):
+            # a complete first round with another source size, then setup() again
+            p.run_model()
+            CUR['round'] = 1
+            SNAP.clear()
+            SNAPD.clear()
+            if case['sinks']:
+                LAST[sink_path(case['sinks'][0]) + '.z'] = np.array([0.0])
+            p.setup()
+            set_autos(p)
+            p.final_setup()
         p.run_model()
     except Exception as e:
         return {'res': {'e': 2}, 'ok': False, 'sig': 'run-raised', 'kind': kind,
